@@ -209,6 +209,11 @@ type childOutcome struct {
 }
 
 func (d *driver) runChild(args []string, env []string, logPath, outPath string, timeout time.Duration) childOutcome {
+	return d.runChildBudget(args, env, logPath, outPath, timeout, 0)
+}
+
+// runChildBudget is runChild with a budget on the child's processor time (0: none, only the clock limit applies).
+func (d *driver) runChildBudget(args []string, env []string, logPath, outPath string, timeout, cpuBudget time.Duration) childOutcome {
 	os.Remove(outPath)
 	lf, err := os.Create(logPath)
 	if err != nil {
@@ -226,9 +231,15 @@ func (d *driver) runChild(args []string, env []string, logPath, outPath string, 
 	go func() { done <- cmd.Wait() }()
 	var werr error
 	timedOut := false
+	expired := time.After(timeout)
+	if cpuBudget > 0 {
+		// the budget is on the processor time of the child (a loaded machine stretches the clock, not the work); the clock
+		// limit, ten times as long, only catches a child that is blocked
+		expired = childCPUExpired(cmd.Process.Pid, cpuBudget, timeout, done)
+	}
 	select {
 	case werr = <-done:
-	case <-time.After(timeout):
+	case <-expired:
 		timedOut = true
 		cmd.Process.Signal(syscall.SIGQUIT) //nolint
 		select {
@@ -253,6 +264,42 @@ func (d *driver) runChild(args []string, env []string, logPath, outPath string, 
 		}
 	}
 	return oc
+}
+
+// childCPUExpired fires when the process has used more than budget of processor time (user+system, from /proc) or wall has
+// passed, whichever comes first; it stops watching when done is signalled by someone else (the channel is only peeked at
+// through the process's disappearance from /proc).
+func childCPUExpired(pid int, budget, wall time.Duration, done <-chan error) <-chan time.Time {
+	ch := make(chan time.Time, 1)
+	go func() {
+		start := time.Now()
+		for {
+			time.Sleep(500 * time.Millisecond)
+			b, err := os.ReadFile(fmt.Sprintf("/proc/%d/stat", pid))
+			if err != nil {
+				return // gone
+			}
+			// fields after the parenthesised command name: state is field 3, utime 14, stime 15 (clock ticks, 100 per second)
+			rest := string(b)
+			if i := strings.LastIndexByte(rest, ')'); i >= 0 {
+				rest = rest[i+1:]
+			}
+			f := strings.Fields(rest)
+			if len(f) > 13 {
+				ut, _ := strconv.ParseInt(f[11], 10, 64)
+				st, _ := strconv.ParseInt(f[12], 10, 64)
+				if time.Duration(ut+st)*10*time.Millisecond > budget {
+					ch <- time.Now()
+					return
+				}
+			}
+			if time.Since(start) > wall {
+				ch <- time.Now()
+				return
+			}
+		}
+	}()
+	return ch
 }
 
 func tailFile(path string, n int64) string {
@@ -351,6 +398,9 @@ func (d *driver) shardTimeout() time.Duration {
 	if s == 0 {
 		s = 1500
 	}
+	if d.tier != "quick" && s < 5400 {
+		s = 5400 // a safety net only: a case that does not end is named by the worker's own watchdog, on processor time
+	}
 	return time.Duration(s) * time.Second
 }
 
@@ -421,7 +471,7 @@ func (d *driver) runShard(shard, n int) {
 	if oc2.timedOut {
 		hangs := 0
 		for i := 0; i < 3; i++ {
-			o := d.runChild(rargs, env, base+".replay.log", base+".replay.json", 45*time.Second)
+			o := d.runChildBudget(rargs, env, base+".replay.log", base+".replay.json", 450*time.Second, 45*time.Second)
 			if o.timedOut {
 				hangs++
 			}
